@@ -96,6 +96,11 @@ def map_history(rng):
     nfile = 0
     for _ in range(rng.randint(3, 10)):
         r = rng.random()
+        if rng.random() < 0.12:
+            # continue on the maps AS READ BACK from their own files (storage that does not own its buffer:
+            # a rebinding made by growth / copy-on-write must not be lost — seeded change C05d)
+            for ln in gen.roundtrip_lines(rng, 'p', f='prt'):
+                both(h, ln)
         if r < 0.35:
             both(h, gen.upd_line(rng, p, focus=focus))
         elif r < 0.55:
